@@ -10,6 +10,13 @@ fn threshold_history(acc: &mut Acc, r: &mut Rng, kind: Kind, variant: u64, steps
     let mut wd = build_pair_world(r, kind, variant);
     let base = r.range128(1_000_000_000, 1_000_000_000_000_000_000);
     let d0 = match kind {
+        // one constant-product world in five is extremely lopsided in base units (one side scarce, e.g. a
+        // 0-decimals asset against an 18-decimals one): the pool ratio is near or below the 1e-18 resolution
+        Kind::Cp if variant % 5 == 4 => {
+            let small = r.range128(1_000, 10_000_000);
+            let huge = r.range128(1_000_000_000_000_000_000_000_000, 100_000_000_000_000_000_000_000_000_000);
+            if r.chance(1, 2) { [small, huge] } else { [huge, small] }
+        }
         Kind::Cp => [base, r.range128(base / 3, base * 3)],
         Kind::Stable => {
             let one = [10u128.pow(wd.pair.decimals[0] as u32), 10u128.pow(wd.pair.decimals[1] as u32)];
